@@ -281,3 +281,21 @@ Theorem C19_tie_sampler_init : forall c sf scale st0, init_sampler c sf scale = 
   counter st0 = gen_counter_init /\ gen_bounds_refused (lo c) (hi c) = false /\ gen_factor_refused (fac c) = false.
 Proof. exact tie_init_sampler. Qed.
 Print Assumptions C19_tie_sampler_init.
+
+(* ---------------------------------------------------------------------- where the annealing configuration comes from: the
+   settings object (Api/Settings.v, tied to src/leaspy/algo/settings.py by harness/translate/settings.py and c13_settings.py) *)
+From Coq Require Import String.
+From Leaspy Require Api.Settings Api.SettingsProofs.
+
+(** A partially given `annealing={...}` UPDATES the default annealing dictionary: an explicit `n_iter` is the count the
+    algorithm finds, and the annealing keys not given (initial temperature, number of plateaus, fraction) keep their defaults. *)
+Theorem C19_settings_explicit_annealing_count :
+  forall (d kw p dd kk : Settings.dict) (v : Settings.jv),
+    NoDup (Settings.keys kw) -> NoDup (Settings.keys kk) -> Settings.merge d kw = Settings.Done p ->
+    In ("annealing"%string, Settings.JDict kk) kw -> Settings.dget d "annealing"%string = Some (Settings.JDict dd) ->
+    In ("n_iter"%string, v) kk -> v <> Settings.JNull -> Settings.odict (Settings.dget dd "n_iter"%string) = false ->
+    exists mm, Settings.dget p "annealing"%string = Some (Settings.JDict mm)
+               /\ Settings.explicit_count mm "n_iter"%string = Some v
+               /\ forall k, ~ In k (Settings.keys kk) -> Settings.dget mm k = Settings.dget dd k.
+Proof. exact SettingsProofs.explicit_annealing_count. Qed.
+Print Assumptions C19_settings_explicit_annealing_count.
